@@ -288,6 +288,8 @@ def gen_cases(tier, seed):
         cases.append({"kind": "history", "getterA": GETTERS[i % 6], "getterB": GETTERS[int(rng.integers(6))] if i % 2 else GETTERS[i % 6], "seq": seq, "sub": int(rng.integers(1 << 31)), "cost": 6})
     for g in GETTERS:
         cases.append({"kind": "idgraph", "getter": g})
+    for i in range(3 if tier == "quick" else 30):
+        cases.append({"kind": "transformed", "variant": ["windmeier", "random", "nonzero"][i % 3], "sub": int(rng.integers(1 << 31)), "cost": 4})
     for i in range(6 if tier == "quick" else 60):
         cases.append({"kind": "template", "sub": int(rng.integers(1 << 31)), "cost": 2})
     return cases
@@ -304,6 +306,32 @@ def _equal(a, b):
     return bool(np.all((a == b) | (np.isnan(a.astype(float)) & np.isnan(b.astype(float)))))
 
 
+def _transformed(case, ctx):
+    """A TransformedModel whose random_state is set is deterministic: its Monte-Carlo quantiles and IFORM contour do not
+    depend on what else was evaluated on the object before, and equal those of a twin built from the same description."""
+    from virocon import IFORMContour
+    from . import c16
+
+    rng = np.random.default_rng(case["sub"])
+    spec = c16.hs_s_spec(rng, case["variant"])
+    seed = int(rng.integers(1, 1 << 30))
+    tm, _ = c16.build_transformed(spec, random_state=seed)
+    twin, _ = c16.build_transformed(spec, random_state=seed)
+    p = np.array([0.1, 0.5, 0.9, 0.99])
+    ctx.nontrivial = True
+    ctx.sample = {"kind": "transformed", "variant": case["variant"], "random_state": seed}
+    a0 = np.asarray(tm.marginal_icdf(p, 0), float)
+    a1 = np.asarray(tm.marginal_icdf(p, 1), float)
+    c0 = np.asarray(IFORMContour(tm, 0.02, n_points=8).coordinates, float)
+    ctx.check("c19.repeatable", _equal(a0, tm.marginal_icdf(p, 0)), "transformed model (random_state set): marginal_icdf is not repeatable", entry="marginal_icdf")
+    with np.errstate(all="ignore"):
+        tm.empirical_cdf(c0[:2])  # fills the lazily cached (unseeded) sample
+        _ = tm.pdf(c0[:2])
+    ctx.check("c19.history-independent", _equal(a0, tm.marginal_icdf(p, 0)) and _equal(a1, tm.marginal_icdf(p, 1)), "transformed model (random_state set): marginal_icdf changes after empirical_cdf() was evaluated on the same object", entry="marginal_icdf", before=a0, after=np.asarray(tm.marginal_icdf(p, 0), float))
+    ctx.check("c19.history-independent", _equal(c0, IFORMContour(tm, 0.02, n_points=8).coordinates), "transformed model (random_state set): the IFORM contour changes after empirical_cdf() was evaluated on the same object", entry="IFORMContour")
+    ctx.check("c19.history-independent", _equal(a0, twin.marginal_icdf(p, 0)) and _equal(c0, IFORMContour(twin, 0.02, n_points=8).coordinates), "transformed model (random_state set): results differ from a twin built from the same description", entry="twin")
+
+
 def run_case(case, ctx):
     ctx.cls("kind", case["kind"])
     ctx.sig = str({k: v for k, v in case.items() if k not in ("id", "cost")})
@@ -313,7 +341,7 @@ def run_case(case, ctx):
         with warnings.catch_warnings():
             warnings.simplefilter("ignore")
             try:
-                {"entrypoints": _entrypoints, "contours": _contours, "history": _history, "idgraph": _idgraph, "template": _template}[case["kind"]](case, ctx)
+                {"entrypoints": _entrypoints, "contours": _contours, "history": _history, "idgraph": _idgraph, "template": _template, "transformed": _transformed}[case["kind"]](case, ctx)
             except _ReportedFitFailure as e:
                 ctx.count("c19.reported-fit-failure-skipped")
                 ctx.notes["skipped"] = str(e)
